@@ -19,9 +19,10 @@ def sub_obj(eps, eg=1):
                                      endpoints=frozenset(sdenv.EP[e] for e in eps))
 
 
-def run_schedule(sched, interval, events, values0, burn=None):
+def run_schedule(sched, interval, events, values0, burn=None, dns=0):
     import someip.service as service
     loop = new_loop()
+    loop.dns_yields = dns
     rec = sdenv.Recorder(loop)
 
     def on_send(data, addr):
@@ -132,16 +133,17 @@ def traces_for(seed, count, length):
         interval = [0, 0, 2, 3][n % 4]
         sched = gen(rng, rng.randint(2, length), interval)
         burn = {ep: rng.choice([0, 0, 65530, 65533, 65535]) for ep in EPS} if n % 3 == 0 else {}
-        ev = run_schedule(sched, interval, EVENTS, {1: 7, 2: 9}, burn)
+        dns = [0, 0, 0, 0, 1, 1, 2, 3][(n // 4) % 8]     # address resolution suspends the sender for 0..3 iterations
+        ev = run_schedule(sched, interval, EVENTS, {1: 7, 2: 9}, burn, dns)
         cfg = mon_cfg(interval)
         head = [{"k": "in", "op": "burn", "dst": ep, "n": k, "t": 0} for ep, k in burn.items() if k]
-        out.append({"cfg": cfg, "ev": monpass.add_adv(head + ev), "sched": sched, "interval": interval, "burn": burn,
-                    "diag": {"interval": interval}})
+        out.append({"cfg": cfg, "ev": monpass.add_adv(head + ev), "sched": sched, "interval": interval, "burn": burn, "dns": dns,
+                    "diag": {"interval": interval, "dns_yields": dns}})
     return out
 
 
 def payload(tr):
-    return {"sched": tr["sched"], "interval": tr["interval"], "burn": tr["burn"], "trace": tr["ev"]}
+    return {"sched": tr["sched"], "interval": tr["interval"], "burn": tr["burn"], "dns": tr.get("dns", 0), "trace": tr["ev"]}
 
 
 def spec_consts(interval):
@@ -166,7 +168,7 @@ def check(ctx):
                        ctx.pick(25, 400), 90, replay_x, "Mon_C17", mon_cfg(0))
     acc = total = 0
     for interval in (0, 2, 3):
-        plain = [t for t in traces if t["interval"] == interval and not any(t["burn"].values())
+        plain = [t for t in traces if t["interval"] == interval and not any(t["burn"].values()) and not t["dns"]
                  and all(i["op"] != "eg_badsub" for i in t["sched"])][: ctx.pick(40, 300)]
         a, t, _ = conformance(ctx, "SDTrace", spec_consts(interval), plain)
         acc += a
@@ -179,15 +181,18 @@ def check(ctx):
                     "with their hop structure, per-destination session ids) x Mon_C17 for all schedules of 4(-5) operations; "
                     "real code: subscribe / unsubscribe from IPv4 and IPv6 endpoints, value updates, notify_once with list / "
                     "tuple / iterator / generator / dict view, cyclic intervals 2 and 3, refused subscriptions (0 or 2 "
-                    "endpoints, unknown eventgroup), session counters pre-advanced next to the wrap")
-    return ctx.finish("model_checking", cov, assumptions=["getaddrinfo of the harness loop resolves numeric addresses without yielding"])
+                    "endpoints, unknown eventgroup), session counters pre-advanced next to the wrap, address resolution that "
+                    "suspends the sender for 0-3 loop iterations")
+    return ctx.finish("model_checking", cov, assumptions=["getaddrinfo of the harness loop suspends the caller for 0..3 loop iterations of the same tick (a real loop "
+                                   "resolves in an executor thread, for an unbounded number of iterations); conformance with SD.tla only "
+                                   "for the non-suspending resolver, the suspended runs are judged by the monitor alone"])
 
 
 def replay(ctx, rep):
     p = rep["payload"]
-    ev = run_schedule(p["sched"], p["interval"], EVENTS, {1: 7, 2: 9}, p["burn"])
+    ev = run_schedule(p["sched"], p["interval"], EVENTS, {1: 7, 2: 9}, p["burn"], p.get("dns", 0))
     head = [{"k": "in", "op": "burn", "dst": ep, "n": k, "t": 0} for ep, k in p["burn"].items() if k]
-    tr = {"cfg": mon_cfg(p["interval"]), "ev": monpass.add_adv(head + ev), "sched": p["sched"], "interval": p["interval"], "burn": p["burn"]}
+    tr = {"cfg": mon_cfg(p["interval"]), "ev": monpass.add_adv(head + ev), "sched": p["sched"], "interval": p["interval"], "burn": p["burn"], "dns": p.get("dns", 0)}
     bad, _ = judge(ctx, "Mon_C17", [tr], "replay", payload)
     print("replay: %s" % ("violation reproduced" if bad else "no violation on the current tree"))
     return 1 if bad else 0
